@@ -96,6 +96,13 @@ def gen_real(seed: int) -> Dict[str, Any]:
         sims.append({"sid": f"G{i}", "type": "time-based", "group": 0, "n_ent": rng.choice([1, 2, 3]),
                      "meta_style": 0, "transport": rng.choice(["gated", "gated", "stock", "remote"]),
                      "beh": {"bseed": rng.randrange(1 << 30), "step_sizes": [rng.choice([1, 1, 2])]}})
+    fan_out = rng.random() < 0.35
+    if fan_out:
+        # one source attribute feeds two attributes of the destination in one call: ('p_out', 'm_in'), ('p_out', 't_in')
+        for s_ in sims[n_src:]:
+            s_["type"] = "hybrid"
+            s_["beh"] = {"bseed": s_["beh"]["bseed"], "p_self": rng.choice([0.0, 0.5]), "self_d": rng.choice([1, 2]),
+                         "p_out": 0.5, "loop_len": 1}
     srcs = [[i, e] for i in range(n_src) for e in range(sims[i]["n_ent"])]
     if rng.random() < 0.3:
         rng.shuffle(srcs)
@@ -103,7 +110,8 @@ def gen_real(seed: int) -> Dict[str, Any]:
         srcs = srcs[:rng.randrange(1, len(srcs))]
     dsts = [[n_src + i, e] for i in range(n_dst) for e in range(sims[n_src + i]["n_ent"])]
     asyn = helper == "many_to_one" and rng.random() < 0.5
-    b = {"helper": helper, "srcs": srcs, "dsts": dsts, "pairs": [["p_out", "m_in"]], "async": asyn,
+    b = {"helper": helper, "srcs": srcs, "dsts": dsts,
+         "pairs": [["p_out", "m_in"], ["p_out", "t_in"]] if fan_out else [["p_out", "m_in"]], "async": asyn,
          "iterable": rng.choice(["list", "tuple", "generator"]), "mode": rng.choice(MODES),
          "rseed": rng.randrange(1 << 30), "evenly": True, "max_connects": None}
     if helper == "many_to_one":
